@@ -546,6 +546,63 @@ def build(run):
                           sample="an observable of a derived form does not depend on which public call came first")
     run.add("dynamic-frame/derived-forms-observables-do-not-depend-on-call-order", derived_forms, kind="bounded")
 
+    # ---- binary operations between two DIFFERENT inputs that look alike (comparison, hashing into one set / dict, algorithms handed both): expression equality
+    # shares operands between expressions it finds equal -- whatever it concludes, the printed structure of BOTH inputs must stay what it was
+    def pairs_of_inputs():
+        from ufl import Interpolate, Coargument
+        from ufl.algorithms import extract_coefficients, apply_algebra_lowering
+        from ufl.algorithms.renumbering import renumber_indices
+        n = 0
+
+        def mkpairs():
+            S.set_counters({k: 270 for k in S.COUNTER_FAMILIES})
+            m = S.new_mesh()
+            V1, V2 = FunctionSpace(m, S.L(ufl.triangle, 1)), FunctionSpace(m, S.L(ufl.triangle, 2))
+            W = FunctionSpace(m, S.L(ufl.triangle, 1, (2,)))
+            f, g, w = Coefficient(V1), Coefficient(V1), Coefficient(W)
+            v = TestFunction(V1)
+            I1 = lambda: Interpolate(f, Coargument(V1.dual(), 0))      # noqa: E731
+            I2 = lambda: Interpolate(f, Coargument(V2.dual(), 0))      # noqa: E731
+            i, j = Index(), Index()
+            out = {
+                "sums of interpolations into different spaces": (2 * I2() + 3 * I1(), 2 * I1() + 3 * I1()),
+                "interpolation into P1 / into P2": (I1() * g, I2() * g),
+                "equal expressions built separately": (sin(f * g) * (f + g) + w[i] * w[i], sin(f * g) * (f + g) + w[j] * w[j]),
+                "expressions differing in one deep leaf": (sin(f * g) * (f + g) * ufl.exp(f * g + f), sin(f * g) * (f + g) * ufl.exp(f * g + g)),
+                "shared and unshared subexpression": ((lambda e_: e_ * e_ + e_)(f * g + 1), (f * g + 1) * (f * g + 1) + (f * g + 2)),
+                "forms differing in metadata spelling": (f * v * dx(metadata={"quadrature_degree": 2}), f * v * dx(metadata={"quadrature_degree": 2.0})),
+                "forms differing in a coefficient": (f * g * v * dx + f * v * ds, f * g * v * dx + g * v * ds),
+            }
+            return out
+        ops = [("a == b", lambda a, b: a == b), ("b == a", lambda a, b: b == a), ("a != b", lambda a, b: a != b), ("a.equals(b)", lambda a, b: a.equals(b) if hasattr(a, "equals") else a == b),
+               ("{a, b}", lambda a, b: {a, b}), ("{b: 1, a: 2}", lambda a, b: {b: 1, a: 2}), ("a in [b]", lambda a, b: a in [b]),
+               ("extract_coefficients of both", lambda a, b: (extract_coefficients(a), extract_coefficients(b))),
+               ("apply_algebra_lowering(a + b)", lambda a, b: apply_algebra_lowering.apply_algebra_lowering(a + b) if hasattr(a, "ufl_shape") and a.ufl_shape == b.ufl_shape else None),
+               ("renumber_indices(a * b)", lambda a, b: renumber_indices(a * b) if hasattr(a, "ufl_shape") and a.ufl_shape == b.ufl_shape == () else None),
+               ("(a*v*dx) + (b*v*dx)", lambda a, b: None)]
+        names = list(mkpairs())
+        for pn in names:
+            for on, op in ops:
+                a, b = mkpairs()[pn]
+                before = (snapshot(a), snapshot(b))
+                try:
+                    with warnings.catch_warnings():
+                        warnings.simplefilter("ignore")
+                        op(a, b)
+                except BaseException as ex:  # noqa: BLE001
+                    if isinstance(ex, (KeyboardInterrupt, SystemExit)):
+                        raise
+                n += 1
+                after = (snapshot(a), snapshot(b))
+                for which, bf, af in (("a", before[0], after[0]), ("b", before[1], after[1])):
+                    if bf != af:
+                        keys = [k for k in bf if bf[k] != af.get(k)]
+                        return violated(f"'{on}' on the pair '{pn}' changed its operand {which}: {keys} differ; e.g. {str(bf[keys[0]])[:200]} -> {str(af.get(keys[0]))[:200]}",
+                                        replay={"pair": pn, "operation": on, "operand": which, "changed": keys, "before": {k: str(bf[k])[:400] for k in keys},
+                                                "after": {k: str(af.get(k))[:400] for k in keys}}, reproduced=True, backend="exec(snapshot)")
+        return bounded_ok(n, f"{len(names)} pairs of look-alike inputs x {len(ops)} binary operations, fresh objects each time", sample="comparing / hashing two inputs changes neither")
+    run.add("dynamic-frame/pairs-of-look-alike-inputs", pairs_of_inputs, kind="bounded")
+
     # base forms (FormSum with weights, Action, Adjoint, Cofunction, Matrix): passes run through map_integrands, which rebuilds FormSums and
     # drops vanished components -- the input's component and weight lists must stay as they were
     def base_forms():
